@@ -70,7 +70,8 @@ Section CliClass.
     - apply Same_bind; [apply Same_get|intros]. apply Same_bind; [smod|intros]. apply Same_bind; [unfold new_writer; smod|intros].
       apply Same_bind; [apply Same_catch, Same_run_hops|intros]. apply Same_bind; [apply Same_get|intros s1].
       apply Same_bind; [destruct (newp s1); [smod|apply Same_ret]|intros]. apply Same_bind; [destruct (is_dirty (wst s1)); [apply Same_wr|apply Same_ret]|intros].
-      apply Same_bind; [apply Same_fl|intros; apply Same_reraise]. Qed.
+      apply Same_bind; [apply Same_fl|intros]. apply Same_bind; [apply Same_reraise|intros].
+      destruct (cs_fail cs _ name args); [apply Same_process_error|apply Same_ret]. Qed.
   Lemma Same_process_help req : Same (process_help okf cs req).
   Proof. unfold process_help. apply Same_bind; [unfold new_writer; smod|intros]. apply Same_bind; [apply Same_run_hops|intros].
     apply Same_bind; [apply Same_get|intros s1]. apply Same_bind; [destruct (is_dirty (wst s1)); [apply Same_wr|apply Same_ret]|intros; apply Same_fl]. Qed.
